@@ -1,4 +1,4 @@
 SPECIFICATION TSpec
 CONSTANTS
-  REPAIRED = FALSE
+  REPAIRED = TRUE
 CHECK_DEADLOCK FALSE
